@@ -13,8 +13,10 @@ DemoClasses == [t \in DemoTypes |->
                IF t = "S" THEN [f \in DemoFields[t] |-> IF f = "s" THEN {"unset", "zero", "typ"} ELSE Classes]
                ELSE [f \in DemoFields[t] |-> {"unset", "zero", "typ"}]]
 DemoConflicts == [t \in DemoTypes |-> IF t = "FC" THEN {{"tls_context", "tls_context_set"}} ELSE {}]
+DemoSecret == [t \in DemoTypes |-> IF t = "S" THEN {"o", "p"} ELSE {}]
 NoDefects == {}
 DefectMarshalDrops == {"MarshalDrops"}
 DefectPtrZero == {"PtrZeroOmitted"}
 DefectPair == {"PairNotInverse"}
+DefectAdmin == {"AdminDumpWritesThrough"}
 ====
